@@ -14,7 +14,9 @@ from sqv.values import canon, data_names
 ID = 'C07'
 LEVEL = 'exploration'
 RULE = ('Hypothesis type-directed programs (1-6 statements, nesting <= 4, host-supplied names of every type) over every '
-        'operator, statement form, slice form and deterministic builtin, rendered fully parenthesised; the reference '
+        'operator, statement form, slice form and deterministic builtin, rendered fully parenthesised; operands and dict '
+        'keys may pop from / measure host lists (evaluation order is observable); 1 case in 6 runs after the shared '
+        'parser was given a text that fails (unclosed brackets, illegal characters, runtime and ops-limit errors); the reference '
         'interpreter (sqv/spec/refsem.py) runs on the tree the frozen reference parser derives from the text; compared: outcome class '
         '(value / ParserError / other Exception), canonical value (type class + exact Decimal representation), host '
         'names afterwards (also after a failure), and charges == node entries == reference node evaluations. '
@@ -39,11 +41,24 @@ def render(stmts):
     return '\n'.join(unparse.full_stmt(s) for s in stmts)
 
 
-def run_source(src, env):
-    """-> (failures, info) ; env = plain-data names"""
+POISON = ['max(1, 2', 'foo(1 2)', '[1, 2 ? 3]', '1 + 2)', '{"a": [1, (2', 'x = [', 'f(a,\n b', '(((', '"unterminated', 'a[1:', '%open',
+          '{1: 2,, 3}', 'v => (v', '[1, 2] | map(v => v +', '[1, 2] | map(v => v / 0)', 'f = n => f(n + 1)\nf(0)', 'q = {"a": [1, 2]}\nq["a"][5]',
+          'del [1][3]', '[3, 1] | sorted(v => undefined_name_9)', '((1)', '[(]', 'a = 1 +\n2', '#only a comment', '', '\n\n', 'x.']
+
+
+def run_source(src, env, poison=None):
+    """-> (failures, info) ; env = plain-data names; poison = a text the shared parser is given first (it may fail in any way)"""
     from smartquery import ParserError
     p = parser()
     case = {'src': src, 'env': core.enc(env)}
+    if poison is not None:
+        case['poison'] = poison
+        try:
+            p.eval(poison, {}, max_ops_evaluated=60)
+        except RecursionError:
+            return [], {'discard': 'recursion'}
+        except Exception:  # noqa  what an earlier, unrelated call did is not judged here - only that it leaves no trace
+            pass
     # the program is its text: the reference interpreter runs on the tree the frozen reference parser derives from it
     try:
         tree = refparse.parse([(t.kind, t.value) for t in reflex.lex(src)])
@@ -93,7 +108,7 @@ def run_source(src, env):
 
 
 def run_case(case):
-    return run_source(case['src'], core.dec(case['env']))[0]
+    return run_source(case['src'], core.dec(case['env']), case.get('poison'))[0]
 
 
 CONTAINER_LABELS = ('literal:', 'index:', 'slice:', 'lambda', 'fn:map', 'fn:filter', 'fn:reduce', 'fn:sorted', 'stmt:setitem',
@@ -114,13 +129,23 @@ def run_job(job):
     st = Stats()
     depth = 3 if tier == 'quick' else 4
 
+    from hypothesis import strategies as hst
+
+    @hst.composite
+    def cases(draw):
+        c = draw(typed.programs(max_depth=depth, effects=True))
+        k = draw(hst.integers(0, 6 * len(POISON) - 1))
+        return c + (POISON[k] if k < len(POISON) else None,)
+
     def check(c):
-        stmts, env, labels = c
+        stmts, env, labels, poison = c
         try:
             src = render(stmts)
         except ValueError as e:
             raise core.HarnessError(f'unparse: {e}')
-        fails, info = run_source(src, env)
+        fails, info = run_source(src, env, poison)
+        if poison is not None:
+            labels = labels + ['after-failed-call-on-same-parser']
         if 'discard' in info:
             st.add('discard:' + info['discard'])
             return hyp.Result(discard=True)
@@ -128,7 +153,7 @@ def run_job(job):
         return hyp.Result(fails, nontrivial(labels), cls, key=src + '\x00' + repr(sorted(env.items(), key=lambda kv: kv[0])),
                           sample={'src': src, 'outcome': info['outcome'], 'ops': info['ops']})
 
-    hyp.drive(typed.programs(max_depth=depth), check, st, seed=seed, max_examples=n)
+    hyp.drive(cases(), check, st, seed=seed, max_examples=n)
     return st
 
 
